@@ -100,6 +100,101 @@ def module(run, rel):
     return _MODCACHE[key]
 
 
+def local_callees(mod, node, depth=2, _seen=None):
+    """function / method definitions of the same module that the code under `node` calls (f(...), self.f(...), cls.f(...),
+    ClassName.f(...)), transitively up to `depth`: a rule that looks for a construct looks through extracted helpers too"""
+    seen = _seen if _seen is not None else {}
+    if depth < 0:
+        return []
+    out = []
+    owner = None
+    n = node
+    while n is not None:
+        if isinstance(n, ast.ClassDef):
+            owner = n
+            break
+        n = getattr(n, "_parent", None)
+    for c in ast.walk(node):
+        if not isinstance(c, ast.Call):
+            continue
+        target = None
+        if isinstance(c.func, ast.Name):
+            target = mod.funcs.get(c.func.id)
+        elif isinstance(c.func, ast.Attribute) and isinstance(c.func.value, ast.Name):
+            base, meth = c.func.value.id, c.func.attr
+            if base in ("self", "cls") and owner is not None:
+                target = mod.funcs.get("%s.%s" % (owner.name, meth))
+            elif "%s.%s" % (base, meth) in mod.funcs:
+                target = mod.funcs.get("%s.%s" % (base, meth))
+        if target is not None and id(target) not in seen and target is not node:
+            seen[id(target)] = target
+            out.append(target)
+            out += local_callees(mod, target, depth - 1, seen)
+    return out
+
+
+def closure_src(mod, nodes, depth=2):
+    """source text of the given statements / function followed by the text of the same-module helpers they call"""
+    if not isinstance(nodes, (list, tuple)):
+        nodes = [nodes]
+    parts = [src(n) for n in nodes]
+    seen = {}
+    for n in nodes:
+        for h in local_callees(mod, n, depth, seen):
+            parts.append(src(h))
+    return " ".join(parts)
+
+
+def closure_walk(mod, node, depth=2):
+    """ast.walk over node and over the same-module helpers it calls"""
+    for x in ast.walk(node):
+        yield x
+    for h in local_callees(mod, node, depth):
+        for x in ast.walk(h):
+            yield x
+
+
+def unique_defs(fn):
+    """name -> value node for local names assigned exactly once in fn by a plain 'name = value' statement"""
+    count = {}
+    val = {}
+    for a in ast.walk(fn):
+        if isinstance(a, ast.Assign) and len(a.targets) == 1 and isinstance(a.targets[0], ast.Name):
+            n = a.targets[0].id
+            count[n] = count.get(n, 0) + 1
+            val[n] = a.value
+        elif isinstance(a, (ast.AugAssign, ast.For, ast.With, ast.NamedExpr)):
+            t = a.target if not isinstance(a, ast.With) else None
+            for x in ast.walk(t) if t is not None else []:
+                if isinstance(x, ast.Name):
+                    count[x.id] = count.get(x.id, 0) + 2
+        elif isinstance(a, ast.Assign):
+            for t in a.targets:
+                for x in ast.walk(t):
+                    if isinstance(x, ast.Name) and isinstance(x.ctx, ast.Store):
+                        count[x.id] = count.get(x.id, 0) + 2
+    return {n: v for n, v in val.items() if count.get(n) == 1}
+
+
+def resolved_src(fn, node, depth=3):
+    """source text of `node` with every local name that has a unique definition in fn replaced by (its defining expression),
+    recursively: 'omega_obs' reads as '(om * sign)' when  omega_obs = om * sign  is its only assignment"""
+    defs = unique_defs(fn)
+
+    class T(ast.NodeTransformer):
+        def __init__(self, d):
+            self.d = d
+
+        def visit_Name(self, n):
+            if isinstance(n.ctx, ast.Load) and n.id in defs and self.d > 0:
+                import copy
+                v = copy.deepcopy(defs[n.id])
+                return T(self.d - 1).visit(v)
+            return n
+    import copy
+    return src(T(depth).visit(copy.deepcopy(node)))
+
+
 def dotted(node):
     """a.b.c -> 'a.b.c' ; else None"""
     parts = []
